@@ -22,5 +22,5 @@ def flood_file(fid, counts, tail_counts):
     lines.append("data %d %s" % (slot, yv.hx(b"....")))
     parts.append(slot); size += 4
     lines.append("datacat 1 " + " ".join(str(p) for p in parts))
-    f = {"id": fid, "size": size, "u8": False, "pesec": False, "blocks": [{"size": size, "mk": tot, "ep": sg.UNDEF}]}
+    f = {"id": fid, "size": size, "u8": False, "pesec": False, "ext": 0, "blocks": [{"size": size, "mk": tot, "ep": sg.UNDEF}]}
     return f, lines
